@@ -358,7 +358,7 @@ def check_testbench(ctx, d, label, simcls):
                 gotv = wantv if st is None else st.get(a, wantv)
             else:
                 # CompiledSimulation documents that default_value is not applied to memories
-                wantv = memmap.get(m, {}).get(a, 0 if simcls is pyrtl.CompiledSimulation else dflt)
+                wantv = memmap.get(m, {}).get(a, 0 if simcls is pyrtl.CompiledSimulation else dflt) % (1 << m.bitwidth)
                 gotv = None if st is None else st.get(a)
             if gotv != wantv:
                 ctx.violation('testbench-init-mem:%s:%s' % (sname, 'rom' if isinstance(m, RomBlock) else 'ram'),
